@@ -134,11 +134,20 @@ class PydanticGrammar(BaseGrammar):
         excluded_names: Iterable[str],
         merge: bool,
     ) -> None:
-        names_to_annotations = {}
-        for field_name, field_info in grammar.__model.model_fields.items():
-            if field_name not in excluded_names:
-                names_to_annotations[field_name] = field_info.annotation
-        self.__update_from_annotations(names_to_annotations, merge)
+        names_to_fields = {
+            field_name: field_info
+            for field_name, field_info in grammar.__model.model_fields.items()
+            if field_name not in excluded_names
+        }
+        self.__update_from_annotations(
+            {name: field.annotation for name, field in names_to_fields.items()}, merge
+        )
+        # Keep the defaults of the fields,
+        # otherwise the model would require elements that the grammar does not require.
+        fields = self.__model.model_fields
+        for name, field in names_to_fields.items():
+            fields[name].default = field.default
+            fields[name].default_factory = field.default_factory
 
     def _update_from_names(  # noqa:D102
         self,
